@@ -1,6 +1,6 @@
 (* C04 — Parameterized SQL agrees with inline SQL; all values travel as parameters.  (clause (a): placeholder count) *)
 Require Import Parser Render Api Shape Count.
-Require Import ParserShape2 RenderCount RenderCountP RenderParamTotal RenderTotal RenderValues Values.
+Require Import ParserShape2 RenderCount RenderCountP RenderParamTotal RenderTotal RenderValues Values SameKind RenderShape.
 From Coq Require Import List String Ascii.
 
 (* (a) on every tree of the parser's output shape whose range fields are columns (rfield_ok; a numeric field term in a closed
@@ -23,6 +23,16 @@ Theorem C04_parameters_are_the_values : forall (o2 : oracle2) (e : expr) (t : st
   wf true e = true -> render_param o2 e = Ret (t, ps, None) -> ps = vals_e e.
 Proof. exact render_param_values. Qed.
 
+(* (d) the SQL text does not depend on the values: two trees that differ only in leaf values of the same kind (Spec/SameKind.v:
+   same operators and columns, integer for integer, float for float, string for string with the same being-the-lone-star and
+   the same being-a-/regexp/) render the same parameterized text; the parameter lists then agree kind by kind (pk).
+   For every tree, of any shape. *)
+Theorem C04_sql_text_independent_of_values : forall (o2 : oracle2) (e e' : expr) (t : string) (ps : list value),
+  sk_e e e' = true -> render_param o2 e = Ret (t, ps, None) ->
+  exists ps', render_param o2 e' = Ret (t, ps', None) /\ Forall2 pk ps ps'.
+Proof. exact same_kind_same_text. Qed.
+
 Print Assumptions C04_placeholders_match_parameters.
+Print Assumptions C04_sql_text_independent_of_values.
 Print Assumptions C04_parameters_are_the_values.
 Print Assumptions C04_render_param_returns.
